@@ -545,6 +545,9 @@ func pvc_suffix(a, b []byte) bool { return true }
 // pvc_same(a, b): the same byte string.
 func pvc_same(a, b []byte) bool { return true }
 
+// pvc_samebase(a, b): a and b start at the same address and have the same capacity.
+func pvc_samebase[T any](a, b []T) bool { return true }
+
 // pvc_overlap(a, b): a and b may share memory (they lie in the same allocation).
 func pvc_overlap[T any](a, b []T) bool { return true }
 
